@@ -545,6 +545,28 @@ func (n *baseStruct) Post(ctx context.Context, s *flyt.SharedStore, p, e any) (f
 	return n.l.post(s, p, e)
 }
 
+// valBaseStruct embeds flyt.BaseNode BY VALUE (`type MyNode struct{ flyt.BaseNode; … }`, used as &MyNode{}): the zero BaseNode
+type valBaseStruct struct {
+	flyt.BaseNode
+	l *leafImpl
+}
+
+func (n *valBaseStruct) Prep(ctx context.Context, s *flyt.SharedStore) (any, error) {
+	n.l.rtx().env.seeCtx(ctx, "prep")
+	return n.l.prep(s)
+}
+func (n *valBaseStruct) Exec(ctx context.Context, p any) (any, error) {
+	n.l.rtx().env.seeCtx(ctx, "exec")
+	return n.l.exec(p)
+}
+func (n *valBaseStruct) Post(ctx context.Context, s *flyt.SharedStore, p, e any) (flyt.Action, error) {
+	n.l.rtx().env.seeCtx(ctx, "post")
+	if n.l.cfg.PostS == "absent" {
+		return n.BaseNode.Post(ctx, s, p, e)
+	}
+	return n.l.post(s, p, e)
+}
+
 // baseStructFb additionally overrides ExecFallback
 type baseStructFb struct{ baseStruct }
 
@@ -599,6 +621,10 @@ func (e *runtimeEnv) buildLeaf(id int, cfg *LeafCfg) flyt.Node {
 		return &plainRetryFb{plainRetry{plainNode{l}}}
 	case cfg.Fb == "custom":
 		return &baseStructFb{baseStruct{flyt.NewBaseNode(flyt.WithMaxRetries(cfg.Budget), flyt.WithWait(wait)), l}}
+	case cfg.Impl == "zeroptr": // the embedded *BaseNode is the zero value, not NewBaseNode()'s
+		return &baseStruct{&flyt.BaseNode{}, l}
+	case cfg.Impl == "zeroval": // BaseNode embedded BY VALUE (zero value)
+		return &valBaseStruct{l: l}
 	case cfg.Impl == "override": // pass-through fallback of an unconfigured BaseNode, getters defined by the user type
 		return &baseOverride{baseStruct{flyt.NewBaseNode(), l}}
 	default: // pass
@@ -1210,7 +1236,17 @@ func (e *runtimeEnv) runOnceVia(root int, via string) RunObs {
 	return RunObs{Trace: tr, Out: out, Store: store}
 }
 
+// normaliseZero: a node kind whose BaseNode is the zero value has the zero value's settings, whatever a generator wrote
+func normaliseZero(sc *FlowScenario) {
+	for _, n := range sc.Nodes {
+		if n.Leaf != nil && strings.HasPrefix(n.Leaf.Impl, "zero") {
+			n.Leaf.Budget, n.Leaf.Wait = 0, 0
+		}
+	}
+}
+
 func execFlowScenario(sc *FlowScenario) FlowObs {
+	normaliseZero(sc)
 	for _, n := range sc.Nodes {
 		if n.Leaf != nil && n.Leaf.Impl == "value" {
 			valueScenarioMu.Lock()
